@@ -224,6 +224,13 @@ const IP_POOL: &[(&str, Option<&str>)] = &[
     ("2001:db8::1", Some("2001:db8::1")),
     ("2001:DB8:0:0:0:0:0:1", Some("2001:db8::1")),
     ("fe80::1:2", Some("fe80::1:2")),
+    // spellings an address list must keep apart: IPv4-mapped and IPv4-compatible IPv6, the unspecified addresses
+    ("::ffff:1.2.3.4", Some("::ffff:1.2.3.4")),
+    ("::ffff:102:304", Some("::ffff:1.2.3.4")),
+    ("::1.2.3.4", Some("::102:304")),
+    ("::", Some("::")),
+    ("0.0.0.0", Some("0.0.0.0")),
+    ("::ffff:127.0.0.1", Some("::ffff:127.0.0.1")),
     ("unknown", None),
     ("1.2.3", None),
     ("256.1.1.1", None),
